@@ -16,6 +16,31 @@ Monitors:
         (wrapper on SynthObject._create_ugen_object), tuple opacity probe, and
         a bytes-level comparison of the E and R result trees through tagged
         Out sinks decoded with vf/scgf.py.
+  conv  (part of gen) CONVERTING constructors: a second population,
+        discovered at run time too (Harness.discover_converting), of
+        constructors that run an argument through the per-value conversion
+        of the parameter interface (UGenSequence / ChannelList
+        ._as_audio_rate_input: K2A for a control-rate unit, DC for a number,
+        nothing for an audio-rate unit - the .ar constructors of the
+        delay-line family DelayN/L/C, CombN/L/C, AllpassN/L/C, BufDelay*,
+        BufComb*, BufAllpass*, DelTapWr) and then delegate everything to one
+        generic expansion.  Qualification uses list-free and HOMOGENEOUS
+        two-element list probes only; the monitor then decides the law for
+        lists that MIX audio-rate units, control-rate units and numbers
+        (also zeros), nested lists, channel lists and wrap-around against
+        the other arguments: element i must be what the same call returns for
+        element i (with ITS conversion).  The class of behaviour behind it:
+        every place where a list argument is converted as a whole must
+        convert per element - a decision taken for the list as a whole (its
+        fastest rate, its first element, "nothing to do") is a different
+        function as soon as the elements are of different kinds.  For the
+        same reason the generic path gets non-unit OBJECT leaves whose
+        conversion (UGenSequence._as_ugen_input) is not the identity:
+        Buffer objects (stand for their buffer number) in buffer positions
+        and in the probe class, Bus objects (stand for their index) in the
+        probe class and in the bus position of the output classes, alone and
+        mixed with numbers inside (nested) lists.
+        Keys: C03/converting-constructor/<kind>/<mechanism | callee>.
   op    ChannelList unary / binary operators and operator methods, both
         operand orders.
   meth  ChannelList convenience methods (range, lag, linlin, madd, ...).
@@ -49,7 +74,10 @@ LEVEL = 'exploration'
 RULE = ("seeded random calls; gen: uniformly chosen qualifying (class, "
         "constructor) with 1-6 argument shapes drawn from scalar / tuple / "
         "list(1-5) / nested list (depth<=3) / ChannelList, trailing defaults "
-        "omitted at random; op/meth: ChannelList receivers (flat or nested) "
+        "omitted at random, 12 % of the calls go to the converting "
+        "constructors (delay-line family .ar) with lists mixing audio-rate "
+        "units, control-rate units and numbers in the converted position, "
+        "Buffer / Bus objects as further leaves; op/meth: ChannelList receivers (flat or nested) "
         "against scalar/list/nested operands; out: output classes with nested "
         "channel arrays and int/float zeros.  A case is non-trivial when the "
         "expansion has to wrap or recurse (two list arguments of different "
@@ -61,6 +89,14 @@ ASSUMPTIONS = [
     "meaning of a single channel; only the expansion is decided",
     "reference expansion vf/c03_model.py:expand and Out model out_reference",
     "independent SCgf-2 parser vf/scgf.py for the bytes-level comparisons",
+    "converting constructors: what the conversion of ONE value is (K2A, DC, "
+    "nothing) is taken from the list-free call, like every single-channel "
+    "meaning; the units the conversion creates are compared by structure, "
+    "their number is not (the expanded call converts a list element once, "
+    "the per-combination calls convert a wrapped element again) - only the "
+    "units of the called class are counted, one per combination",
+    "a pooled Buffer / Bus object stands for the buffer number / bus index "
+    "it was created with (fixed by the harness)",
     "empty lists, tuples as operands of ChannelList arithmetic (sc3 documents "
     "that list arithmetic also zips tuples) and number receivers of named "
     "convenience methods are outside the domain",
@@ -79,7 +115,12 @@ MIN_COUNTERS = {
               'out_argument_snapshots_compared': 1000,
               'gen_second_builds_with_shared_arguments': 300,
               'gen_argument_snapshots_compared': 3000,
-              'min_classes_qualified': 100},
+              'min_classes_qualified': 100,
+              'min_converting_constructors_qualified': 15,
+              'gen_converting_compared': 3000,
+              'gen_converting_mixed_lists_compared': 1200,
+              'gen_compared_with_objects_inside_lists': 2000,
+              'out_units_checked_with_bus_objects': 3000},
     'thorough': {'gen_compared': 100000, 'gen_unit_count_checks': 100000,
                  'gen_bytes_trees_compared': 20000, 'gen_tuple_probes': 2000,
                  'op_compared': 30000, 'meth_compared': 15000,
@@ -90,7 +131,12 @@ MIN_COUNTERS = {
                  'out_argument_snapshots_compared': 50000,
                  'gen_second_builds_with_shared_arguments': 10000,
                  'gen_argument_snapshots_compared': 200000,
-                 'min_classes_qualified': 100},
+                 'min_classes_qualified': 100,
+                 'min_converting_constructors_qualified': 15,
+                 'gen_converting_compared': 10000,
+                 'gen_converting_mixed_lists_compared': 4000,
+                 'gen_compared_with_objects_inside_lists': 8000,
+                 'out_units_checked_with_bus_objects': 5000},
 }
 
 
@@ -116,7 +162,9 @@ def coverage_extra(counters, tier):
     cl = sorted(k[4:] for k in counters if k.startswith('cls/'))
     ops = sorted(k[3:] for k in counters if k.startswith('op/'))
     me = sorted(k[5:] for k in counters if k.startswith('meth/'))
+    cv = sorted(k[11:] for k in counters if k.startswith('converting/'))
     return {'constructors_covered': len(cl), 'constructor_list': cl,
+            'converting_constructors': cv,
             'operators_covered': ops, 'methods_covered': me}
 
 
@@ -144,6 +192,8 @@ class Harness:
         self.counting = False
         self._install_creation_counter()
         self._define_probe_class()
+        self._obj_pool = {}
+        M.OBJ_MAKER[0] = self.make_obj
 
     # -- instrumentation (boundary wrappers, looked up dynamically) ---------
     def _install_creation_counter(self):
@@ -205,6 +255,30 @@ class Harness:
         if rate == 'stereo':
             return self.panm.Pan2.ar(self.ocl.SinOsc.ar(self.tag))
         raise ValueError(rate)
+
+    # long-lived non-unit values that stand for a number as a unit input;
+    # the number is fixed HERE (explicit buffer number / bus index), so the
+    # oracle knows it without asking the object
+    OBJ_NUMBER = {'buffer': lambda n: 700 + n, 'bus': lambda n: 40 + 2 * n}
+
+    def make_obj(self, kind, n):
+        o = self._obj_pool.get((kind, n))
+        if o is None:
+            num = self.OBJ_NUMBER[kind](n)
+            if kind == 'buffer':
+                from sc3.synth.buffer import Buffer
+                o = Buffer(frames=1024, channels=1, bufnum=num, alloc=False)
+            else:
+                from sc3.synth.bus import AudioBus, ControlBus
+                o = (AudioBus, ControlBus)[n % 2](2, index=num)
+            self._obj_pool[(kind, n)] = o
+            self._obj_pool[id(o)] = num
+        return o
+
+    def obj_number(self, x):
+        """the number a pooled object stands for (None: not a pooled
+        object)."""
+        return self._obj_pool.get(id(x))
 
     def inst(self, t):
         return M.instantiate(t, self.make_ugen, self.ChannelList)
@@ -449,6 +523,185 @@ class Harness:
         self.build(body, 'probe')
         return res if res['ok'] else None
 
+    # -- discovery of the CONVERTING constructor population ------------------
+    def discover_converting(self, main_pop):
+        """(class, selector) pairs whose constructor runs some of its
+        arguments through a per-value conversion (e.g. the audio-rate
+        conversion of the delay-line family: K2A for a control-rate unit, DC
+        for a number) and then hands ALL arguments, in order, to exactly one
+        top-level cls._multi_new and returns its value.  Decided by probing,
+        inside one build, with list-free arguments and, one position at a
+        time, HOMOGENEOUS two-element lists:
+
+          * list-free probes: every handed argument is the argument object
+            itself or a unit created during the call (the conversion of that
+            value); what is handed at position k depends on argument k only
+            (a constructor that looks at one argument to decide about another
+            one does not delegate position-wise and stays outside);
+          * list probes [x, y] with x, y of one kind (two audio-rate units,
+            two control-rate units, two numbers): the handed value is a
+            two-element list whose elements are, structurally, what the
+            list-free probes handed for x and for y;
+          * at least one (position, kind) is really converted (otherwise the
+            pair belongs to the direct population or to none).
+
+        Lists that MIX kinds, nested lists, channel lists, wrapping against
+        other lists are NOT part of the qualification: they are what the
+        monitor then decides with the reference expansion."""
+        import inspect
+        ugn = self.ugn
+        orig = ugn.SynthObject.__dict__['_multi_new'].__func__
+        calls, depth = [], [0]
+
+        def _multi_new(cls, *args):
+            top = depth[0] == 0
+            depth[0] += 1
+            try:
+                ret = orig(cls, *args)
+            finally:
+                depth[0] -= 1
+            if top:
+                calls.append((cls, args, ret))
+            return ret
+        have = {(e['name'], e['sel']) for e in main_pop}
+        ugn.SynthObject._multi_new = classmethod(_multi_new)
+        pop = []
+        try:
+            for name, cls in sorted(self.installed.items()):
+                for sel in ('ar', 'kr', 'new'):
+                    meth = getattr(cls, sel, None)
+                    if meth is None or (name, sel) in have:
+                        continue
+                    try:
+                        sig = inspect.signature(meth)
+                    except (TypeError, ValueError):
+                        continue
+                    ps = list(sig.parameters.values())
+                    if not ps or \
+                            any(p.kind != p.POSITIONAL_OR_KEYWORD for p in ps):
+                        continue
+                    params = []
+                    for p in ps:
+                        d = p.default
+                        if d is p.empty:
+                            ch = 'chan' in p.name
+                            params.append((p.name, 'chan' if ch else 'req', None))
+                        elif isinstance(d, (int, float)) and \
+                                not isinstance(d, bool):
+                            params.append((p.name, 'num', d))
+                        else:
+                            params.append((p.name, 'fixed', d))
+                    q = self._qualifies_converting(cls, sel, meth, params,
+                                                   calls, depth)
+                    if q:
+                        pop.append({'cls': cls, 'name': name, 'sel': sel,
+                                    'meth': meth, 'params': params,
+                                    'reqleaf': 'ugen', 'returns': True,
+                                    'ugen_ok': q['ugen_ok'],
+                                    'converts': q['converts']})
+        finally:
+            ugn.SynthObject._multi_new = classmethod(orig)
+        return pop
+
+    def _qualifies_converting(self, cls, sel, meth, params, calls, depth):
+        ugn = self.ugn
+        res = {'ok': False, 'ugen_ok': set(), 'converts': {}}
+        urates = ('control',) if sel == 'kr' else ('audio', 'control')
+
+        def one(args):
+            """handed argument list | 'raise' | None (does not delegate)"""
+            del calls[:]
+            depth[0] = 0
+            try:
+                ret = meth(*args)
+            except Exception:
+                return 'raise'
+            mine = [(a, r) for c, a, r in calls if c is cls]
+            if len(mine) != 1 or len(mine[0][0]) != len(args) + 1:
+                return None
+            a, r = mine[0]
+            if sel in RATE_OF_SEL and a[0] != RATE_OF_SEL[sel]:
+                return None
+            if ret is not r:
+                return None
+            return list(a[1:])
+
+        def body():
+            s = self.signer()
+            base = [self._probe_value(sel, k, d, 'ugen', i)
+                    for i, (_, k, d) in enumerate(params)]
+
+            def handed_ok(arg, h, given):
+                # the argument itself, or a unit made during the call
+                if h is arg or (type(h) is type(arg) and isinstance(
+                        arg, (int, float, str, tuple)) and h == arg):
+                    return 'same'
+                if isinstance(h, ugn.SynthObject) and \
+                        not any(h is g for g in given):
+                    return 'converted'
+                return None
+
+            hb = one(base)
+            if hb is None or hb == 'raise':
+                return
+            if any(handed_ok(a, h, base) is None for a, h in zip(base, hb)):
+                return
+            sb = [s(h) for h in hb]
+            for j, (_, kind, default) in enumerate(params):
+                if kind in ('fixed', 'chan'):
+                    continue
+                cands = {}
+                for r in urates:
+                    cands[r] = [self.make_ugen(r), self.make_ugen(r)]
+                cands['number'] = [0, 0.25 + j] if isinstance(default, int) \
+                    and default is not None else [0.0, 0.25 + j]
+                conv = {}
+                for ck, leaves in cands.items():
+                    usable = True
+                    for x in leaves:
+                        args = list(base)
+                        args[j] = x
+                        h = one(args)
+                        if h is None:
+                            return
+                        if h == 'raise':
+                            usable = False
+                            break
+                        for k in range(len(params)):
+                            if k != j and s(h[k]) != sb[k]:
+                                return          # position-wise it is not
+                        how = handed_ok(x, h[j], args)
+                        if how is None:
+                            return
+                        conv[id(x)] = (s(h[j]), how)
+                    if not usable:
+                        continue
+                    # homogeneous list probe
+                    args = list(base)
+                    args[j] = list(leaves)
+                    h = one(args)
+                    if h is None or h == 'raise':
+                        return
+                    hj = h[j]
+                    if not isinstance(hj, list) or len(hj) != 2:
+                        return
+                    for x, e in zip(leaves, hj):
+                        if s(e) != conv[id(x)][0]:
+                            # delegates position-wise, but this list is not
+                            # converted per element: stays IN the population,
+                            # the monitor decides (never a silent drop-out)
+                            res['list_probe_deviates'] = True
+                    for k in range(len(params)):
+                        if k != j and s(h[k]) != sb[k]:
+                            return
+                    if ck != 'number':
+                        res['ugen_ok'].add(j)
+                    if any(conv[id(x)][1] == 'converted' for x in leaves):
+                        res['converts'].setdefault(j, []).append(ck)
+            res['ok'] = bool(res['converts'])
+        self.build(body, 'probe')
+        return res if res['ok'] else None
+
 
 def copy_lists(x):
     if isinstance(x, list):
@@ -481,6 +734,60 @@ def list_shape(x):
     return '.'
 
 
+def mixed_rate_list(a):
+    """a list (at any depth) that holds an audio-rate unit next to an element
+    that is not audio rate (control-rate unit, number): the argument shape
+    for which a per-element conversion and a decision about the list as a
+    whole differ."""
+    if not isinstance(a, list):
+        return False
+    au = [getattr(x, 'rate', None) == 'audio' for x in a
+          if not isinstance(x, (list, tuple))]
+    if any(au) and not all(au):
+        return True
+    return any(mixed_rate_list(x) for x in a)
+
+
+def object_in_list(t):
+    return t[0] == 'list' and any(
+        x[0] == 'obj' or object_in_list(x) for x in t[1])
+
+
+def converting_mechanism(H, E, R, s):
+    """why the first differing channel of a converting constructor differs:
+    'list-element-not-converted' when a unit of the expanded call reads an
+    unconverted value (number / slower unit) where the same call on that
+    element reads an audio-rate unit; else None."""
+    UG = H.ugn.UGen
+    for e, r in zip(flat_leaves(E, []), flat_leaves(R, [])):
+        if s(e) == s(r):
+            continue
+        e = getattr(e, 'source_ugen', e)
+        r = getattr(r, 'source_ugen', r)
+        if not (isinstance(e, UG) and isinstance(r, UG)) or \
+                type(e) is not type(r) or len(e.inputs) != len(r.inputs):
+            return None
+        return _unconverted(s, e.inputs, r.inputs)
+    return None
+
+
+def _unconverted(s, xs, ys):
+    for x, y in zip(xs, ys):
+        if s(x) == s(y):
+            continue
+        if isinstance(x, tuple) and isinstance(y, tuple) and len(x) == len(y):
+            # an array-valued (tuple) element: look at its members
+            return _unconverted(s, x, y)
+        if getattr(y, 'rate', None) == 'audio' and \
+                getattr(x, 'rate', None) != 'audio':
+            return 'list-element-not-converted'
+        if getattr(x, 'rate', None) == 'audio' and \
+                getattr(y, 'rate', None) != 'audio':
+            return 'list-element-converted-but-single-value-not'
+        return None
+    return None
+
+
 def exc_site(e):
     sites = tb_sites(e)
     return f'{type(e).__name__}@{sites[-1][0]}:{sites[-1][1]}' if sites \
@@ -509,8 +816,22 @@ def dsigner(d):
 # ---------------------------------------------------------------------------
 # gen
 
-def num_for(kind, default):
+BUFFER_PARAMS = {'buf', 'bufnum', 'buffer', 'buffer_a', 'buffer_b'}
+
+
+def num_for(kind, default, name='', probe=False):
+    # object leaves: a Buffer where a buffer number is expected (any class),
+    # a Buffer / Bus in the positions of the harness-defined probe class
+    p_buf = 0.3 if name in BUFFER_PARAMS else 0.04 if probe else 0.0
+    p_bus = 0.03 if probe else 0.0
+
     def f(rng):
+        if p_buf or p_bus:
+            r = rng.random()
+            if r < p_buf:
+                return ('obj', 'buffer', rng.randrange(4))
+            if r < p_buf + p_bus:
+                return ('obj', 'bus', rng.randrange(4))
         if kind == 'chan':
             return rng.choice([1, 1, 2, 3])
         if kind == 'num':
@@ -530,6 +851,9 @@ def gen_call_templates(rng, ent):
             nreq = k + 1
     n_given = rng.randint(nreq, len(params)) if rng.random() < 0.6 \
         else len(params)
+    converts = ent.get('converts') or {}
+    if converts and rng.random() < 0.9:
+        n_given = max(n_given, max(converts) + 1)
     sel = ent['sel']
     rates = {'ar': ('audio', 'audio', 'control'), 'kr': ('control',),
              'new': ('audio', 'control')}.get(sel, ())
@@ -539,12 +863,18 @@ def gen_call_templates(rng, ent):
     # tuple mode: tuples in every position, alone and inside / next to lists
     tuple_mode = rng.random() < 0.1
     must_list = rng.choice(variable) if variable and rng.random() < 0.9 else None
+    if converts and rng.random() < 0.6:
+        # converting constructor: mostly a list in a converted position
+        given = [k for k in converts if k < n_given]
+        if given:
+            must_list = rng.choice(given)
     for k in range(n_given):
-        _, kind, default = params[k]
+        pname, kind, default = params[k]
         if kind == 'fixed':
             templates.append(('fixed', default))
             continue
         p_ugen = 0.0 if not rates else (
+            0.6 if k in converts else
             0.55 if kind == 'req' and ent['reqleaf'] == 'ugen' else
             0.12 if kind == 'num' and k in ent['ugen_ok'] else 0.0)
         p_tuple = 0.0 if kind == 'chan' else (0.5 if tuple_mode else 0.04)
@@ -552,8 +882,9 @@ def gen_call_templates(rng, ent):
         if k == must_list:
             force = rng.choices(['list', 'nested', 'chlist'], [60, 30, 10])[0]
         templates.append(M.gen_template(
-            rng, num_for(kind, default), p_ugen, p_tuple, rates or ('audio',),
-            force=force))
+            rng, num_for(kind, default, pname, ent['name'] == 'VfProbe'),
+            p_ugen, p_tuple,
+            rates or ('audio',), force=force))
     return templates
 
 
@@ -569,9 +900,15 @@ def run_gen(spec, acc, H):
     if not pop:
         acc.mark_inconclusive('no qualifying constructor discovered')
         return
+    cpop = H.discover_converting(pop)
+    acc.counters['min_converting_constructors_qualified'] = len(cpop)
+    for e in cpop:
+        acc.counters['converting/' + e['name'] + '.' + e['sel']] = 1
     for i in iter_cases(spec):
         rng = case_rng(spec['seed'], 'C03', 'gen', i)
-        ent = rng.choice(probes) if rng.random() < 0.06 else rng.choice(pop)
+        r = rng.random()
+        ent = rng.choice(probes) if r < 0.06 else \
+            rng.choice(cpop) if r < 0.18 and cpop else rng.choice(pop)
         templates = gen_call_templates(rng, ent)
         gen_case(acc, H, i, ent, templates, probes,
                  reuse=rng.random() < 0.15)
@@ -616,7 +953,20 @@ def gen_build(acc, H, i, ent, templates, probes, classify, share, build_no):
         if Eexc is not None or Rexc is not None:
             return
         st['diff'] = H.diff_kind(E, R, s) if ent['returns'] else None
-        st['count_ok'] = cE == cR
+        if ent.get('converts'):
+            # one unit of the class per combination; the units made by the
+            # per-value conversion are made once per list element by the
+            # expanded call and once per combination by the reference calls
+            # (a wrapped element is converted again), so only their
+            # structure is compared (signature), not their number
+            own = ent['cls'].__name__
+            st['count_ok'] = cE[own] == cR[own]
+            st['mixed'] = any(mixed_rate_list(a) for k, a in enumerate(args)
+                              if k in ent['converts'])
+            if st['diff'] == 'element':
+                st['conv_mech'] = converting_mechanism(H, E, R, s)
+        else:
+            st['count_ok'] = cE == cR
         if st['diff'] or not st['count_ok']:
             st['Erepr'], st['Rrepr'] = repr(E)[:600], repr(R)[:600]
             return
@@ -677,6 +1027,14 @@ def gen_build(acc, H, i, ent, templates, probes, classify, share, build_no):
     else:
         acc.count('gen_compared' if ent['returns'] else 'gen_count_only')
         acc.count('cls/' + callee)
+        if ent.get('converts'):
+            acc.count('gen_converting_compared')
+            if st.get('mixed'):
+                acc.count('gen_converting_mixed_lists_compared')
+        if any(M.template_has(t, 'obj') for t in templates):
+            acc.count('gen_compared_with_object_leaves')
+            if any(object_in_list(t) for t in templates):
+                acc.count('gen_compared_with_objects_inside_lists')
         acc.count('gen_unit_count_checks')
         acc.count('gen_reference_leaf_calls', st['stats'].get('combos', 0))
         if st['stats'].get('wrapped'):
@@ -747,6 +1105,11 @@ def gen_build(acc, H, i, ent, templates, probes, classify, share, build_no):
                 kind = k2
         if ent['name'] == 'VfProbe' or generic:
             key = f'C03/generic-expansion/{kind}'
+        elif ent.get('converts') and st.get('conv_mech'):
+            # one mechanism for the whole family (the class is in the witness)
+            key = f"C03/converting-constructor/{kind}/{st['conv_mech']}"
+        elif ent.get('converts'):
+            key = f'C03/converting-constructor/{kind}/{callee}'
         else:
             key = f'C03/constructor/{kind}/{callee}'
         acc.violation(key, wit)
@@ -1340,12 +1703,17 @@ def run_out(spec, acc, H):
         audio = sel == 'ar'
         fixed_t = []
         for k in range(nfixed):
+            def busleaf():
+                # the bus position: a number or (first fixed position only)
+                # a Bus object, which stands for its index
+                if k == 0 and rng.random() < 0.2:
+                    return ('obj', 'bus', rng.randrange(4))
+                return ('num', float(rng.randint(1, 60)))
             if rng.random() < 0.2:
-                fixed_t.append(('list', [('num', float(rng.randint(1, 60)))
-                                         for _ in range(rng.choice([1, 2, 3]))],
-                                False))
+                fixed_t.append(('list', [busleaf() for _ in range(
+                    rng.choice([1, 2, 3]))], False))
             else:
-                fixed_t.append(('num', float(rng.randint(1, 60))))
+                fixed_t.append(busleaf())
         out_t = gen_out_template(rng, audio)
         reuse = rng.random() < 0.35
         if reuse:
@@ -1404,6 +1772,8 @@ def out_build(acc, H, scgf, i, cname, sel, fixed_t, out_t, share, build_no):
             return 'SIL'
         if isinstance(x, (int, float)):
             return ('c', float(x) + 0.0)      # -0.0 and 0.0 are one constant
+        if H.obj_number(x) is not None:
+            return ('c', float(H.obj_number(x)))
         if isinstance(x, ugn.OutputProxy):
             return ('u', expect_unit(x.source_ugen), x._output_index)
         return ('u', expect_unit(x), 0)
@@ -1468,6 +1838,8 @@ def out_build(acc, H, scgf, i, cname, sel, fixed_t, out_t, share, build_no):
     got_ins = sorted((repr(norm_got(g)) for g in got))
     exp_ins = sorted(repr(e) for e in exp_units)
     acc.count('out_units_checked', len(exp_units))
+    if any(M.template_has(t, 'obj') for t in fixed_t):
+        acc.count('out_units_checked_with_bus_objects', len(exp_units))
     acc.count('out_zero_inputs_checked', zeros)
     acc.count('cls/' + callee)
     if len(got) != len(exp_units):
